@@ -24,6 +24,7 @@ import (
 	"github.com/zenon-network/go-zenon/verifier"
 	"github.com/zenon-network/go-zenon/vm"
 	"github.com/zenon-network/go-zenon/wallet"
+	"github.com/zenon-network/go-zenon/zenon"
 )
 
 // LabClock is the process-wide clock (common.Clock); drivers set it to the slot they are producing.
@@ -333,3 +334,17 @@ func (n *Node) MomentumAt(h uint64) *nom.Momentum {
 }
 
 var Users = []*wallet.KeyPair{g.User1, g.User2, g.User3, g.User4, g.User5, g.User6}
+
+// Z adapts a lab node to the zenon.Zenon interface the RPC APIs take.
+type Z struct{ N *Node }
+
+func (z Z) Init() error                         { return nil }
+func (z Z) Start() error                        { return nil }
+func (z Z) Stop() error                         { return nil }
+func (z Z) Chain() chain.Chain                  { return z.N.Chain }
+func (z Z) Consensus() consensus.Consensus      { return z.N.Cons }
+func (z Z) Verifier() verifier.Verifier         { return z.N.Ver }
+func (z Z) Protocol() *protocol.ProtocolManager { return nil }
+func (z Z) Producer() pillar.Manager            { return nil }
+func (z Z) Config() *zenon.Config               { return nil }
+func (z Z) Broadcaster() protocol.Broadcaster   { return z.N }
